@@ -253,6 +253,9 @@ def run_case(case: dict[str, Any]) -> dict[str, Any]:
             if level == "transport":
                 await op("write", tr.write(req_pdu, timeout=T))
                 if rec["ops"][-1][1] == "ok":
+                    if case.get("pause_before_read"):
+                        # the tester is busy for a moment: reply and end-of-stream have both arrived before it reads
+                        await asyncio.sleep(case["pause_before_read"])
                     await op("read", tr.read(timeout=T))
                     if case.get("second_read") and rec["ops"][-1][1] in ("ok", "timeout"):
                         await op("read2", tr.read(timeout=T if T is not None else 3.0))
@@ -387,6 +390,10 @@ def enumerate_cases(did: int, level: str, restart: float, max_retry: int, protos
                     if proto == "doip" and level == "client" and kind != "silence" and 0 < rs <= 6.5 and (cut or 0) % 3 == 0:
                         # the restarting gateway already accepts TCP connections but does not answer the routing activation yet
                         cases.append(dict(cases[-1], restart_mode="mute"))
+        if level == "transport":
+            # the complete reply followed by end-of-stream, read only after both have arrived: what was received is delivered first
+            cases.append({"proto": proto, "level": level, "did": did, "cut": n, "kind": "eof", "timeout": 1.5, "restart": 0.0,
+                          "max_retry": max_retry, "second_read": True, "pause_before_read": 0.5})
         if level == "client":
             # the same exchange with a ResponsePending in front of the final reply: every cut point once more, with the retries
             # the case asks for and with none left (the loss then has to surface as the error the statement names)
@@ -426,7 +433,7 @@ def run_shard(spec: dict[str, Any], seed: int) -> Collector:
         ex = dict(ex, level=spec["level"])
         for case in enumerate_cases(ex["did"], ex["level"], ex["restart"], ex["max_retry"], spec["protos"]):
             res = check(case)
-            col.case((case["proto"], case["level"], case["did"], case["cut"], case["kind"], case["timeout"], case["restart"], case["max_retry"], bool(case.get("pending")), case.get("retry_via"), case.get("restart_mode")),
+            col.case((case["proto"], case["level"], case["did"], case["cut"], case["kind"], case["timeout"], case["restart"], case["max_retry"], bool(case.get("pending")), case.get("retry_via"), case.get("restart_mode"), case.get("pause_before_read")),
                      nontrivial(case), cls=f"{case['proto']}/{case['level']}/{case['kind']}" + ("/no-timeout" if case["timeout"] is None else "")
                      + ("/after-pending" + ("/no-retry-left" if case["max_retry"] == 0 else "") if case.get("pending") else ""), sample=case)
             for b, m in res:
